@@ -12,15 +12,60 @@ CHECKS = {
   "C02": ("exploration", "bounded exhaustive input enumeration, containment of every recorded pixel in bounding_box()",
           "Every drawable of the catalogue plus text over all 292 built-in fonts x decorations x baselines x alignments x line heights is drawn on unbounded recording targets; every pixel must lie in bounding_box(), transparent styles must draw nothing. Exhaustive up to the listed bounds; fonts are covered completely.",
           "Only containment (not tightness) is asserted; Rectangle::contains is trusted (C16).", "6/C02"),
-  "C07": ("exploration", "bounded exhaustive input enumeration, metamorphic oracle (translate then draw == draw then shift)",
-          "Every (drawable, style, offset) of the listed product: pixel map of x.translate(d) equals the shifted map of x; boxes, points() and contains() shift; translate_mut == translate; polylines also with moved vertices; text next position shifts. Exhaustive up to the listed bounds.",
-          "Bounded catalogue and offsets; objects straddle the origin so offsets cross both axes.", "6/C07"),
+  "C03": ("model_checking", "explicit-state BFS over operation histories; transition function = the real adapters; reference = set-theoretic model",
+          "State = pixel map of the innermost parent. Every (adapter stack up to depth 2/3 over 25 adapters, operation of 44) from 16 initial states, and all histories of length 2/3 over a reduced alphabet, are executed through the real clipped/cropped/translated/color_converted adapters and trait defaults; every transition is compared with the composed set-theoretic model (state, call confinement, reported boxes).",
+          "Rectangle::intersection/translate are trusted primitives of the model (C16); bounded alphabet and depth.", "6/C03"),
+  "C04": ("fault_enumeration", "exhaustive fault enumeration: for every k the run in which the k-th target call fails",
+          "For every drawable x 6 adapter stacks x 2 target flavours the fault-free run gives n calls; every k in 1..=n is made to fail and the run must return exactly Err(Fault(k)), make no further call, and have made the same k-1 calls as the fault-free run.",
+          "One fault per execution (a second is unreachable if the property holds); bounded drawable list.", "6/C04"),
   "C05": ("exploration", "bounded exhaustive input enumeration vs. reference (points() sequence == row-major filter of contains())",
           "Every shape of a listed finite domain (all sizes up to N, all equal and a product of unequal corner radii, all non-degenerate vertex triples of small grids, start/sweep angle grids, two positions) is run through the real points()/contains(); the verdict is exhaustive up to those bounds.",
           "Trusts Rectangle::contains/bounding_box arithmetic of the probe (decided separately by C16); contains() is probed on the bounding box grown by 2 plus six far points.", "6/C05"),
   "C06": ("exploration", "bounded exhaustive input enumeration vs. reference (pixel map predicted from fill_area()/stroke_area())",
           "All four closed shapes x all sizes up to N (incl. strokes wider than the shape) x all styles S(W) are drawn through draw() on both reference targets and through pixels(); each map must equal the map predicted from contains() of fill_area()/stroke_area(); exhaustive up to the bounds.",
           "contains() of the returned areas defines the areas (C05 ties it to points()); bounded to listed sizes/widths.", "6/C06"),
+  "C07": ("exploration", "bounded exhaustive input enumeration, metamorphic oracle (translate then draw == draw then shift)",
+          "Every (drawable, style, offset) of the listed product: pixel map of x.translate(d) equals the shifted map of x; boxes, points() and contains() shift; translate_mut == translate; polylines also with moved vertices; text next position shifts. Exhaustive up to the listed bounds.",
+          "Bounded catalogue and offsets; objects straddle the origin so offsets cross both axes.", "6/C07"),
+  "C08": ("exploration", "bounded exhaustive enumeration of a boundary-value product under panic capture, a counting allocator and step budgets, in overflow-checked builds of both feature sets",
+          "Every case of a display-scale boundary-value product (coordinates +-1024, sizes to 1024, stroke widths to 128, degenerate objects, null font, zero-sized images, adapters, out-of-range indices) is probed: constructor, bounding_box, contains, points, pixels, draw on two counting targets; no panic, no allocation, ends within the budget. Child-process death or a hang is reported as a violation.",
+          "Allocation freedom is measured on the explored executions; iterators over boxes above 2^18 pixels are truncated on the draw_iter-only path.", "6/C08"),
+  "C09": ("exploration", "bounded exhaustive input enumeration vs. an independent decode of the documented byte layout",
+          "7 raw widths x 2 data orders x all sizes up to 5x4 (9x6) x contents x all sub-areas with corners in [-1,w+1]x[-1,h+1] x nested areas x Image::new/with_center, each drawn on three reference targets incl. one that drains the colour iterator; pixel(), ImageRaw::new with every length.",
+          "Layout model written from the documentation, independent of the library's bit_position.", "6/C09"),
+  "C10": ("model_checking", "explicit-state BFS over write histories on 140 real framebuffer configurations beside a map model",
+          "7 depths x 2 data orders x 5 sizes x exact/oversized buffers x zeroed/0xA5 start: all sequences (depth 3/4) of set_pixel/draw_iter/fill_solid/clear/stroked rectangle with inside and outside points; on every state pixel(), tail bytes, documented layout of data() and as_image() are compared with the model; dedup on the byte array.",
+          "Padding bits of partially used row bytes are not asserted; bounded alphabet and depth.", "6/C10"),
+  "C11": ("model_checking", "bounded exhaustive enumeration of store/load cases vs. a bit-level layout model, and explicit-state search over next()/nth() sequences of the raw iterator; run in overflow-checked and plain release builds",
+          "7 raw types x 2 orders x buffer lengths x every index incl. wrap-around indices x values x backgrounds against a bit-level model; every next()/nth(k) sequence to depth 4/5 with items and size_hint compared with the model cursor.",
+          "24/32-bit values are a boundary set; bounded buffer lengths.", "6/C11"),
+  "C12": ("exploration", "complete enumeration of every colour value, constructor input and raw storage value of the 14 colour types",
+          "The value spaces are finite and enumerated completely (24-bit raw storage with all 2^32 values in the thorough tier): identity, bit budget, documented layout from an independent width table, accessors, idempotence, storage/byte serialisations.",
+          "Channel widths and order come from a table in the harness.", "6/C12"),
+  "C13": ("exploration", "complete enumeration of all 182 conversion pairs x every source value",
+          "Every source value of every ordered pair of built-in colour types: nearest scaled value per channel, extremes, widening round trip, monotonicity, binary thresholds, gray->rgb->gray identity.",
+          "Luma for RGB->BinaryColor is what the public RGB->Gray8 conversion returns.", "6/C13"),
+  "C14": ("exploration", "complete enumeration over built-in fonts: every (font, mapped character) pair, BMP scan of the mappings, synthetic fonts",
+          "All 292 fonts x every mapped character + unmapped characters x 16 colour/decoration sets are drawn and compared cell by cell with the atlas cell the mapping designates; every font's index() against the named mapping table (full BMP scan); custom fonts with spacing, different atlas row lengths, custom mappings.",
+          "Mapping tables are checked for consistency and against the atlas geometry, not against the ISO standards.", "6/C14"),
+  "C15": ("exploration", "bounded exhaustive input enumeration with metamorphic oracles (CR LF vs LF, whole text vs separate lines, chaining) and layout rules",
+          "Fonts (22 quick / 292 thorough) x 14 strings x 3 alignments x 4 baselines x 4 line heights x decorations x positions: draw==measure_string, chaining at every split, alignment and baseline of every line box, multi-line == lines separately, CR LF == LF.",
+          "Built-in fonts have spacing 0; Middle = centre row rounded down.", "6/C15"),
+  "C16": ("exploration", "bounded exhaustive enumeration of rectangles / ordered pairs vs. explicit point sets",
+          "All rectangles and all ordered pairs of a small grid (incl. zero sizes) plus a boundary-value product up to +-2^20: intersection, envelope, contains, points, rows/columns, bottom_right, center/with_center, with_corners, anchors, resized*, offset compared with half-open boxes in 64-bit arithmetic.",
+          "Random rectangles of the quantifier are replaced by a deterministic boundary product.", "6/C16"),
+  "C17": ("exploration", "bounded exhaustive enumeration of lines x stroke widths vs. exact geometric clauses",
+          "All lines with end points in [-8,8]^2 ([-12,12]^2) x widths 1..=12 (16) plus boundary-value long lines: thin-line clauses exactly in integers, thick-line clauses with the statement's tolerances.",
+          "Random long lines are replaced by a boundary product; f64 with 1e-9 slack in favour of the code.", "6/C17"),
+  "C18": ("exploration", "bounded exhaustive enumeration of curved shapes and angle grids vs. exact ideal curves with true-distance bands, in the floating-point and fixed_point builds",
+          "Circles to d=64 (128), ellipses to 32x32 (64x64), rounded rectangles with equal and unequal radii, sectors/arcs over diameter x start x sweep grids incl. fractional and special angles: band of half a pixel by Eberly's distance, symmetry, runs, equivalences, confined radii, 1.5 px angular clause.",
+          "f64 distances with 1e-6 slack in favour of the code; angle convention of the library.", "6/C18"),
+  "C19": ("exploration", "bounded exhaustive enumeration of vertex triples, edge-sharing pairs and polylines vs. exact orientation tests",
+          "All vertex triples of a 7x7 (8x8) grid in all six orders plus larger boundary triangles, all edge-sharing pairs of a 4x4 (5x5) grid, all polylines up to 5 (6) vertices of a 3x3 grid.",
+          "Direction-agnostic reading of outline/shared-edge clauses.", "6/C19"),
+  "C20": ("model_checking", "explicit-state BFS over draw histories on the real MockDisplay beside a map model; complete enumeration of small patterns",
+          "All action sequences to depth 3 (4) from the four flag combinations (panicking actions lead to the partially drawn state), each transition compared with the model: panic iff required, all cells, ==, diff, affected_area, Debug/from_pattern; all patterns up to 3x2 cells over every colour type's characters.",
+          "get_pixel/set_pixel only with in-range points; bounded alphabet and depth.", "6/C20"),
 }
 NOT_YET = {}
 
